@@ -104,6 +104,65 @@ func runC02(c *core.Ctx, r *core.Reporter) {
 	c02state(c, r, read)
 	c02carry(c, r)
 	c02eof(c, r, read, tables, names)
+	c02reentrant(c, r, read)
+}
+
+// c02reentrant: the built-ins that drive the reader keep no state in their function object. The object is the
+// call site: bytes or positions left there by one evaluation would be seen by the next read from another stream.
+func c02reentrant(c *core.Ctx, r *core.Reporter, read *ssa.Function) {
+	const rule = "C02.reentrant"
+	r.Rule(rule, "every registered built-in from whose Call the reader is statically reachable (read, read-from-string, load, ...) stores nothing into its own function object, also not through the methods it calls on itself or closures: pending bytes kept at the call site make the objects read depend on what an earlier evaluation of the same form left behind", 4)
+	// entry points: functions of package slip that call (*reader).read directly
+	entries := map[*ssa.Function]bool{}
+	for _, fn := range c.ModuleFuncs() {
+		for _, b := range fn.Blocks {
+			for _, in := range b.Instrs {
+				if call, ok := in.(*ssa.Call); ok && call.Call.StaticCallee() == read {
+					entries[fn] = true
+				}
+			}
+		}
+	}
+	reaches := func(fn *ssa.Function) bool {
+		seen := map[*ssa.Function]bool{}
+		var walk func(f *ssa.Function, d int) bool
+		walk = func(f *ssa.Function, d int) bool {
+			if f == nil || seen[f] || d > 4 || f.Blocks == nil {
+				return false
+			}
+			seen[f] = true
+			if entries[f] {
+				return true
+			}
+			for _, b := range f.Blocks {
+				for _, in := range b.Instrs {
+					if call, ok := in.(*ssa.Call); ok {
+						if g := call.Call.StaticCallee(); g != nil && g.Pkg != nil && core.InModule(g.Pkg.Pkg) && walk(g, d+1) {
+							return true
+						}
+					}
+				}
+			}
+			for _, af := range f.AnonFuncs {
+				if walk(af, d) {
+					return true
+				}
+			}
+			return false
+		}
+		return walk(fn, 0)
+	}
+	for _, b := range c.Registry() {
+		if b.Call == nil || b.Name == "" {
+			continue
+		}
+		fn := c.SSAFunc(b.Call)
+		if fn == nil || len(fn.Params) == 0 || !reaches(fn) {
+			continue
+		}
+		bad, pos := selfStores(fn)
+		r.Decide(len(bad) == 0, rule, b.Key(), c.Pos(pos), fmt.Sprintf("fields of the function object written while reading: %v", bad))
+	}
 }
 
 func tableName(names map[string]string, t string) string {
